@@ -5,6 +5,7 @@ import (
 	"errors"
 	"fmt"
 	"io"
+	"net"
 	"os"
 	"runtime"
 	"runtime/metrics"
@@ -20,9 +21,11 @@ import (
 	"github.com/jhump/grpctunnel/tunnelpb"
 	"google.golang.org/grpc"
 	"google.golang.org/grpc/codes"
+	"google.golang.org/grpc/credentials/insecure"
 	"google.golang.org/grpc/metadata"
 	"google.golang.org/grpc/peer"
 	"google.golang.org/grpc/status"
+	"google.golang.org/grpc/test/bufconn"
 	"google.golang.org/protobuf/types/known/wrapperspb"
 )
 
@@ -60,6 +63,7 @@ type World struct {
 	frozen       bool // the final snapshot has been taken; later completions are the harness's teardown
 	freeSetup    bool
 	parked       []*parkedYield
+	buf          *bufNet
 	soft         []chan struct{} // goroutines held at sleep-type yields, oldest first
 	rootGID      int64
 	holdParks    bool // parked goroutines are released only by explicit "unpark" operations
@@ -759,7 +763,11 @@ func (w *World) setup() bool {
 	if cfg.Dir == "nested" || cfg.Dir == "nestedrev" {
 		tunnelpb.RegisterTunnelServiceServer(w.handler, w.handler.Service())
 	}
-	w.net.RegisterService(&tunnelpb.TunnelService_ServiceDesc, w.handler.Service())
+	if cfg.Carrier == "bufconn" {
+		w.bufStart()
+	} else {
+		w.net.RegisterService(&tunnelpb.TunnelService_ServiceDesc, w.handler.Service())
+	}
 
 	specs := cfg.Tunnels
 	if len(specs) == 0 {
@@ -856,11 +864,17 @@ func (w *World) openTunnel(spec TunnelSpec, fatal bool) bool {
 			t.openCtx, t.cancel = context.WithDeadline(ctx, t.expireAt)
 		}
 	}
-	conn0 := w.net.Conn(w.connOpts(spec))
-	w.mu.Lock()
-	t.conn = conn0
-	w.mu.Unlock()
-	stub := tunnelpb.NewTunnelServiceClient(conn0)
+	var cci grpc.ClientConnInterface
+	if cfg.Carrier == "bufconn" {
+		cci = w.bufDial() // real grpc-go over an in-process pipe (free-running engines only)
+	} else {
+		conn0 := w.net.Conn(w.connOpts(spec))
+		w.mu.Lock()
+		t.conn = conn0
+		w.mu.Unlock()
+		cci = conn0
+	}
+	stub := tunnelpb.NewTunnelServiceClient(cci)
 
 	switch cfg.Dir {
 	case "fwd", "nested":
@@ -897,10 +911,15 @@ func (w *World) openTunnel(spec TunnelSpec, fatal bool) bool {
 		}
 		t.server = w.servers[spec.Server]
 		w.mu.Unlock()
-		createdBefore := len(t.server.conn.Created())
+		createdBefore := 0
+		if t.server.conn != nil {
+			createdBefore = len(t.server.conn.Created())
+		}
 		go w.serveLoop(t)
 		w.settle()
-		if cs := t.server.conn.Created(); len(cs) > createdBefore {
+		if t.server.conn == nil {
+			// no tap on a real transport
+		} else if cs := t.server.conn.Created(); len(cs) > createdBefore {
 			w.mu.Lock()
 			t.carrier = cs[len(cs)-1]
 			t.rec.Carrier = t.carrier.Idx
@@ -934,6 +953,9 @@ func (w *World) openTunnel(spec TunnelSpec, fatal bool) bool {
 		conn = t.server.conn
 	}
 	w.mu.Unlock()
+	if conn == nil {
+		return true
+	}
 	if cs := conn.Created(); len(cs) > 0 {
 		w.mu.Lock()
 		t.carrier = cs[len(cs)-1]
@@ -941,6 +963,51 @@ func (w *World) openTunnel(spec TunnelSpec, fatal bool) bool {
 		w.mu.Unlock()
 	}
 	return true
+}
+
+// ---------------------------------------------------------------------------
+// real grpc-go carrier (Cfg.Carrier == "bufconn"): the tunnel service is registered on a grpc.Server that listens on an
+// in-process pipe; every tunnel gets its own grpc.ClientConn. No tap, no fault injection, no stepping: free-running only.
+
+type bufNet struct {
+	srv   *grpc.Server
+	lis   *bufconn.Listener
+	conns []*grpc.ClientConn
+}
+
+func (w *World) bufStart() {
+	b := &bufNet{srv: grpc.NewServer(), lis: bufconn.Listen(1 << 20)}
+	tunnelpb.RegisterTunnelServiceServer(b.srv, w.handler.Service())
+	go func() { _ = b.srv.Serve(b.lis) }()
+	w.buf = b
+}
+
+func (w *World) bufDial() grpc.ClientConnInterface {
+	lis := w.buf.lis
+	cc, err := grpc.NewClient("passthrough:///verif-bufconn",
+		grpc.WithContextDialer(func(ctx context.Context, _ string) (net.Conn, error) { return lis.DialContext(ctx) }),
+		grpc.WithTransportCredentials(insecure.NewCredentials()))
+	if err != nil {
+		panic(err)
+	}
+	w.mu.Lock()
+	w.buf.conns = append(w.buf.conns, cc)
+	w.mu.Unlock()
+	return cc
+}
+
+func (w *World) bufStop() {
+	if w.buf == nil {
+		return
+	}
+	w.mu.Lock()
+	conns := append([]*grpc.ClientConn(nil), w.buf.conns...)
+	w.mu.Unlock()
+	for _, cc := range conns {
+		_ = cc.Close()
+	}
+	w.buf.srv.Stop()
+	_ = w.buf.lis.Close()
 }
 
 // serveLoop runs ReverseTunnelServer.Serve for one reverse tunnel.
@@ -2146,6 +2213,38 @@ func (w *World) opHandlerMD(ctx context.Context, ss grpc.ServerStream, op MDOp, 
 		md = nil
 	}
 	rec.MD = cloneMD(md)
+	if op.BigKeys > 0 {
+		// thousands of keys: converting them takes the receiving end a good fraction of a millisecond (recorded above without them)
+		if md == nil {
+			md = metadata.MD{}
+		}
+		for i := 0; i < op.BigKeys; i++ {
+			md[fmt.Sprintf("big-%d", i)] = []string{"v"}
+		}
+	}
+	if op.CancelAfterUs > 0 && w.free {
+		// free-running engines: the caller's cancellation is aimed at the arrival of this header at its end
+		w.mu.Lock()
+		var r *rpcState
+		if rec.RPC >= 0 && rec.RPC < len(w.rpcs) {
+			r = w.rpcs[rec.RPC]
+		}
+		w.mu.Unlock()
+		if r != nil {
+			d := time.Duration(op.CancelAfterUs) * time.Microsecond
+			defer func() {
+				go func() {
+					time.Sleep(d)
+					w.mu.Lock()
+					c := r.cancel
+					w.mu.Unlock()
+					if c != nil {
+						c()
+					}
+				}()
+			}()
+		}
+	}
 	var err error
 	switch op.Kind {
 	case "sethdr":
